@@ -284,7 +284,7 @@ class Machine:
                     val = ('tensor', dense_bytes(z))
                     zd = z.to_dense()
                     if zd.requires_grad and sem in ('real', 'log'):
-                        self.pending.append({'z': zd, 'g': g, 'sem': sem, 'method': method, 'kmax': kmax})
+                        self.pending.append({'z': zd, 'zp': z, 'g': g, 'sem': sem, 'method': method, 'kmax': kmax})
             val = val + (tuple(sorted(str(w.message)[:40] for w in ws)),)
         except Exception as ex:
             val = ('exc', type(ex).__name__)
@@ -402,12 +402,25 @@ class Machine:
         cot = torch.ones_like(p['z'])
         mask = torch.isfinite(p['z'].detach())
         before = self.snaps()
+        go = torch.where(mask, torch.ones_like(p['z']), torch.zeros_like(p['z'])).detach().clone()
+        go_bytes = go.clone()
         try:
-            (torch.where(mask, p['z'], torch.zeros_like(p['z'])) * cot).sum().backward(retain_graph=True)
+            if a[1] % 2 == 0:
+                # the caller hands in its own cotangent tensor (for the physical storage of the result, as autograd.grad
+                # users do): it is an argument like any other and must not be modified
+                ph = p['zp'].physical
+                go = torch.where(torch.isfinite(ph.detach()), torch.ones_like(ph), torch.zeros_like(ph)).detach().clone()
+                go_bytes = go.clone()
+                ph.backward(gradient=go, retain_graph=True)
+                self.c.inc('probe.backward-with-caller-cotangent')
+            else:
+                (torch.where(mask, p['z'], torch.zeros_like(p['z'])) * cot).sum().backward(retain_graph=True)
             exc = None
         except RuntimeError as ex:
             exc = ex          # torch's own "modified by an inplace operation" is an error, never wrong data
         self.check_unchanged(before, 'backward', allow_grad=True)
+        if not torch.equal(go, go_bytes):
+            V('input-mutated', ['backward', 'cotangent'], f'backward overwrote the cotangent tensor passed by the caller: {go_bytes.tolist()} became {go.tolist()}')
         self.c.inc('probe.deferred-backward')
         if exc is not None:
             return ('backward', 'raised')
